@@ -1,11 +1,12 @@
 package main
 
 // C02 — loading resolves every $ref to exactly the object it designates.
-// Real code exercised: openapi3.Loader (LoadFromFile / LoadFromDataWithPath / LoadFromData / LoadFromURI)
+// Real code exercised: openapi3.Loader (LoadFromFile / LoadFromDataWithPath / LoadFromData / LoadFromIoReader / LoadFromURI)
 // with an in-memory ReadFromURIFunc over generated multi-file layouts. Observed: the load error, and
 // Value (canonical JSON) of every *Ref / $ref path item reachable from the returned *T.
 
 import (
+	"bytes"
 	"encoding/json"
 	"fmt"
 	"net/url"
@@ -28,7 +29,7 @@ func init() {
 			"(same document, external fragment in same/parent/sibling/child directory, whole file in another directory whose object holds a relative ref, untyped x- extension) × chain length 1..2 × path spellings " +
 			"(x.json, ./x.json, ../d/x.json, d/../x.json, absolute, doubled slash) × root directory depth × entry point (file, data+path, data, http URI); shapes: diamond, self and mutual cycles per kind, " +
 			"callback/path-item cycles, pointer escapes (~0, ~1, ~01 with decoy siblings), dangling (component, file, nil field), wrong kind, scalar target, slash-less fragment, pure $ref cycle, '#', " +
-			"histories of 2..3 loads on ONE Loader (a revision whose reference dangles below a referenced component, then the corrected one with the same reference texts; every pair of entry points LoadFromData / LoadFromFile / LoadFromDataWithPath / LoadFromURI; the same root twice; two roots sharing an external document that the first load walked cleanly / left half-walked), null members at loop-element positions (in the root, below a typed target, below an untyped x- target), two documents with one path on two hosts, the #29 two-directory layout, kind clash per slot (same document / document loaded through the reference), path-item chains (2..3 hops, across directories, cyclic, to a whole file, through a callback), '#/…' inside whole-file elements per kind, pointers through a header, 3-hop chains per kind; then a seeded random stream of 2..4-file layouts with random components whose child slots are inline values or references to random components by random spelling. " +
+			"histories of 2..3 loads on ONE Loader (a revision whose reference dangles below a referenced component, then the corrected one with the same reference texts; every pair of entry points LoadFromData / LoadFromFile / LoadFromDataWithPath / LoadFromURI; the same root twice; two roots sharing an external document that the first load walked cleanly / left half-walked; histories over a store that CHANGES between the loads: the root edited in place — repaired, broken by the edit, changed, three revisions — for every pair of located entry points, an external fragment document edited, a whole-file element replaced / removed, an external document appearing / disappearing), null members at loop-element positions (in the root, below a typed target, below an untyped x- target), two documents with one path on two hosts, the #29 two-directory layout, kind clash per slot (same document / document loaded through the reference), path-item chains (2..3 hops, across directories, cyclic, to a whole file, through a callback), '#/…' inside whole-file elements per kind, pointers through a header, 3-hop chains per kind; then a seeded random stream of 2..4-file layouts with random components whose child slots are inline values or references to random components by random spelling, and a random stream of changing-store histories (2..3 independent random layouts on one Loader, the store replaced in between); data loads of changing-store histories partly through LoadFromIoReader. " +
 			"A case is non-trivial when the driver reports at least one branch (it always reports the reference forms, kinds and classes present).",
 		Exhaustive: true,
 		Gen:        genC02,
@@ -43,7 +44,7 @@ func init() {
 			"value objects are generated in the marshaller's normal form, so that Value marshals back to the raw object",
 			"IsExternalRefsAllowed = true",
 			"no parameter with both schema and content is generated (the loader rejects it); a document with a null member where an object belongs may be rejected or loaded — when it loads, its references must be resolved",
-			"one in-memory store for all loads of a history (files do not change between the loads); at most one LoadFromData load per history",
+			"within one epoch of a history one in-memory store; between epochs the store is replaced (files edited, added, removed) while the Loader stays; at most one LoadFromData load per epoch (so several per history)",
 			"RefPath() is not compared (for a reference met first through a backtrack callback it depends on the visiting order)",
 		},
 	})
@@ -231,6 +232,13 @@ func c02Sorted[E any](m map[string]E) []string {
 	return out
 }
 
+func c02ListAt(v any, i int) any {
+	if l := jlist(v); i < len(l) {
+		return l[i]
+	}
+	return nil
+}
+
 // c02Loads: the loads of a case — the short form {entry, root} is a history of one load
 func c02Loads(c hx.Case) [][2]string {
 	ls := jlist(c["loads"])
@@ -245,24 +253,33 @@ func c02Loads(c hx.Case) [][2]string {
 	return out
 }
 
-// runC02 makes the loads of the case one after the other on ONE Loader
+// runC02 makes the loads of the case one after the other on ONE Loader. Long form {epochs: [{files, loads}, …]}: the
+// store is replaced between two epochs (the files were edited), the Loader stays the same.
 func runC02(c hx.Case) any {
 	files := map[string][]byte{}
 	virtual := map[string][]byte{}
-	short := len(jlist(c["loads"])) == 0
-	for i, f := range jlist(c["files"]) {
-		fm, _ := f.(map[string]any)
-		b, _ := json.Marshal(fm["json"])
-		key := c02KeyStr(jstr(fm, "path"))
-		if jbool(fm, "virtual") || (short && i == 0 && jstr(c, "entry") == "data") {
-			// a root document given as data: it has no location and is not part of the store
-			virtual[key] = b
-			if short {
-				virtual[""] = b
-			}
-			continue
+	c02SetStore := func(ep map[string]any) {
+		for k := range files {
+			delete(files, k)
 		}
-		files[key] = b
+		for k := range virtual {
+			delete(virtual, k)
+		}
+		short := len(jlist(ep["loads"])) == 0
+		for i, f := range jlist(ep["files"]) {
+			fm, _ := f.(map[string]any)
+			b, _ := json.Marshal(fm["json"])
+			key := c02KeyStr(jstr(fm, "path"))
+			if jbool(fm, "virtual") || (short && i == 0 && jstr(ep, "entry") == "data") {
+				// a root document given as data: it has no location and is not part of the store
+				virtual[key] = b
+				if short {
+					virtual[""] = b
+				}
+				continue
+			}
+			files[key] = b
+		}
 	}
 	reads := 0
 	l := openapi3.NewLoader()
@@ -278,42 +295,62 @@ func runC02(c hx.Case) any {
 		}
 		return nil, fmt.Errorf("no such file: %s", u)
 	}
+	epochs := []map[string]any{}
+	for _, e := range jlist(c["epochs"]) {
+		if em, ok := e.(map[string]any); ok {
+			epochs = append(epochs, em)
+		}
+	}
+	if len(epochs) == 0 {
+		epochs = append(epochs, map[string]any(c))
+	}
 	loads := []any{}
-	for _, ld := range c02Loads(c) {
-		entry, root := ld[0], ld[1]
-		var doc *openapi3.T
-		var err error
-		switch entry {
-		case "file":
-			doc, err = l.LoadFromFile(root)
-		case "path":
-			u, _ := url.Parse(root)
-			doc, err = l.LoadFromDataWithPath(files[c02KeyStr(root)], u)
-		case "uri":
-			u, _ := url.Parse(root)
-			doc, err = l.LoadFromURI(u)
-		default:
-			d, ok := virtual[c02KeyStr(root)]
-			if !ok {
-				d = virtual[""]
+	for _, ep := range epochs {
+		c02SetStore(ep)
+		for li, ld := range c02Loads(hx.Case(ep)) {
+			entry, root := ld[0], ld[1]
+			via := "" // "reader": the data load goes through LoadFromIoReader (which hands over to LoadFromData)
+			if lm, ok := c02ListAt(ep["loads"], li).(map[string]any); ok {
+				via = jstr(lm, "via")
 			}
-			doc, err = l.LoadFromData(d)
-		}
-		if err != nil {
-			loads = append(loads, map[string]any{"outcome": "err", "error": err.Error(), "refs": map[string]any{}})
-			continue
-		}
-		o := &c02Obs{refs: map[string]map[string]any{}}
-		o.visit(reflect.ValueOf(doc), map[uintptr]bool{})
-		refs := map[string]any{}
-		for rid, vs := range o.refs {
-			lst := []any{}
-			for _, k := range c02Sorted(vs) {
-				lst = append(lst, vs[k])
+			var doc *openapi3.T
+			var err error
+			switch entry {
+			case "file":
+				doc, err = l.LoadFromFile(root)
+			case "path":
+				u, _ := url.Parse(root)
+				doc, err = l.LoadFromDataWithPath(files[c02KeyStr(root)], u)
+			case "uri":
+				u, _ := url.Parse(root)
+				doc, err = l.LoadFromURI(u)
+			default:
+				d, ok := virtual[c02KeyStr(root)]
+				if !ok {
+					d = virtual[""]
+				}
+				if via == "reader" {
+					doc, err = l.LoadFromIoReader(bytes.NewReader(d))
+				} else {
+					doc, err = l.LoadFromData(d)
+				}
 			}
-			refs[rid] = lst
+			if err != nil {
+				loads = append(loads, map[string]any{"outcome": "err", "error": err.Error(), "refs": map[string]any{}})
+				continue
+			}
+			o := &c02Obs{refs: map[string]map[string]any{}}
+			o.visit(reflect.ValueOf(doc), map[uintptr]bool{})
+			refs := map[string]any{}
+			for rid, vs := range o.refs {
+				lst := []any{}
+				for _, k := range c02Sorted(vs) {
+					lst = append(lst, vs[k])
+				}
+				refs[rid] = lst
+			}
+			loads = append(loads, map[string]any{"outcome": "ok", "refs": refs})
 		}
-		loads = append(loads, map[string]any{"outcome": "ok", "refs": refs})
 	}
 	last, _ := loads[len(loads)-1].(map[string]any)
 	return map[string]any{"outcome": last["outcome"], "error": last["error"], "refs": last["refs"], "loads": loads}
@@ -713,6 +750,23 @@ func genC02(ctx *hx.Ctx, emit func(hx.Case)) {
 	for i := 0; i < n; i++ {
 		emit(c02Random(ctx.Rng))
 	}
+	// random histories over a changing store: 2..3 independent random layouts (they share directory and file names and
+	// most reference texts) loaded one after the other on ONE Loader, the store replaced wholesale in between
+	for i := 0; i < n/15; i++ {
+		eps := []any{}
+		for k := 2 + ctx.Rng.Intn(2); k > 0; k-- {
+			eps = append(eps, c02AsEpoch(c02Random(ctx.Rng)))
+		}
+		emit(hx.Case{"epochs": eps})
+	}
+}
+
+// c02AsEpoch: a case (short form or history form, root not given as data) as one epoch of a changing-store history
+func c02AsEpoch(c hx.Case) map[string]any {
+	if ls := jlist(c["loads"]); len(ls) > 0 {
+		return map[string]any{"files": c["files"], "loads": c["loads"]}
+	}
+	return map[string]any{"files": c["files"], "loads": []any{map[string]any{"entry": c["entry"], "root": c["root"]}}}
 }
 
 // where a referring object can be put: at the top level, or in a child slot of a parent at the top level
@@ -1037,6 +1091,7 @@ func c02Shapes(emit func(hx.Case)) {
 	}
 	c02ShapesRound3(emit)
 	c02ShapesRound4(emit)
+	c02ShapesRound5(emit)
 }
 
 // round 4: histories on one Loader, null members, documents that share a path on two hosts
@@ -1231,6 +1286,172 @@ func c02ShapesRound4(emit func(hx.Case)) {
 }
 
 // shapes added when the model followed the repaired loader (a04fe6c, 9b25d89, f972c33, cbb0d05)
+// ---------------------------------------------------------------- round 5: a store that changes between the loads
+
+// c02EpochCase: the layouts are the epochs of one history on ONE Loader (each layout carries its own loads)
+func c02EpochCase(ls ...*c02Layout) hx.Case {
+	eps := []any{}
+	for _, l := range ls {
+		c := l.toCase()
+		eps = append(eps, map[string]any{"files": c["files"], "loads": c["loads"]})
+	}
+	return hx.Case{"epochs": eps}
+}
+
+// c02Rev: a revision of one document. Pet refers (in the first child slot of its kind) to the component Owner, Cat
+// refers to Pet; Owner exists only in a fixed revision, so in a broken one the reference dangles BELOW a referenced
+// component. `id` tags the values: two fixed revisions with different ids resolve to different objects.
+func c02Rev(kind string, fixed bool, id string) jm {
+	d := c02Doc()
+	var back *c02Slot
+	for si := range c02Slots {
+		if c02Slots[si].parent == kind {
+			back = &c02Slots[si]
+			break
+		}
+	}
+	pet := c02Val(kind, "Pet"+id)
+	if back != nil {
+		c02Set2(pet, *back, c02Ref(c02Ptr(back.child, c02TopName(back.child, "Owner")), "owner"))
+		if fixed {
+			c02Put(d, back.child, c02TopName(back.child, "Owner"), c02Val(back.child, "Owner"+id))
+		}
+	}
+	c02Put(d, kind, c02TopName(kind, "Pet"), pet)
+	c02Put(d, kind, c02TopName(kind, "Cat"), c02Ref(c02Ptr(kind, c02TopName(kind, "Pet")), "cat"))
+	return d
+}
+
+func c02ShapesRound5(emit func(hx.Case)) {
+	base := func(entry string) string {
+		if entry == "uri" {
+			return "http://h.example/api"
+		}
+		return "/r/a"
+	}
+	empty := func() *c02Layout {
+		l := newLayout("file", "/r/a/unused.json")
+		delete(l.files, "/r/a/unused.json")
+		l.order = nil
+		return l
+	}
+	entries := []string{"file", "path", "uri"}
+	// the revisions an edit goes through: (fixed?, id) per epoch
+	type revn struct {
+		fixed bool
+		id    string
+	}
+	edits := [][]revn{
+		{{false, "1"}, {true, "1"}},              // repaired: must load now
+		{{true, "1"}, {false, "1"}},              // broken by the edit: must FAIL now (nothing of the first load may survive)
+		{{true, "1"}, {true, "2"}},               // changed: must resolve to the NEW objects
+		{{false, "1"}, {true, "2"}, {true, "3"}}, // three epochs
+	}
+	kinds := []string{"schema", "response", "parameter", "requestBody", "pathItem", "callback", "header"}
+	for ki, kind := range kinds {
+		// with LoadFromData too: one data load per epoch, so a history may now hold several of them
+		entriesA := []string{"data", "file", "path", "uri"}
+		for i, e1 := range entriesA {
+			for j, e2 := range entriesA {
+				if ki > 0 && (i+j+ki)%3 != 0 {
+					continue // every pair of entry points for schemas, a third of them for the other kinds
+				}
+				for _, ed := range edits {
+					// (A) the root document itself is edited in place between the loads
+					var eps []*c02Layout
+					for n, r := range ed {
+						e := e1
+						if n%2 == 1 {
+							e = e2
+						}
+						l := empty()
+						p := base(e) + "/root.json"
+						l.raw(p, c02Rev(kind, r.fixed, r.id))
+						if e == "data" {
+							l.virtual = map[string]bool{p: true}
+						}
+						l.loads = [][2]string{{e, p}}
+						eps = append(eps, l)
+					}
+					c := c02EpochCase(eps...)
+					if (ki+i+j)%2 == 0 {
+						// the rarely used entry point: data loads go through LoadFromIoReader
+						for _, ep := range c["epochs"].([]any) {
+							for _, ld := range ep.(map[string]any)["loads"].([]any) {
+								if lm := ld.(map[string]any); lm["entry"] == "data" {
+									lm["via"] = "reader"
+								}
+							}
+						}
+					}
+					emit(c)
+				}
+			}
+		}
+		// (B) the root stays, an external document it refers to (by fragment) is edited
+		for _, e := range entries {
+			for ei, ed := range edits {
+				var eps []*c02Layout
+				for n, r := range ed {
+					l := empty()
+					p := base(e) + "/root.json"
+					root := c02Doc()
+					c02Put(root, kind, c02TopName(kind, "R"), c02Ref("x.json"+c02Ptr(kind, c02TopName(kind, "Cat")), "r"))
+					l.raw(p, root)
+					l.raw(base(e)+"/x.json", c02Rev(kind, r.fixed, r.id))
+					l.loads = [][2]string{{e, p}}
+					if ei == 2 && n == 0 {
+						l.loads = append(l.loads, [2]string{"path", p}) // two loads in the first epoch, then the edit
+					}
+					eps = append(eps, l)
+				}
+				emit(c02EpochCase(eps...))
+			}
+		}
+		// (C) the root stays, a whole-file element it refers to is replaced by another value / is removed
+		// (a bare element file has no kind of its own: a value of another kind is not a wrong-kind target there)
+		if kind != "pathItem" && kind != "callback" {
+			for _, e := range []string{"file", "uri"} {
+				for _, second := range []jm{c02Val(kind, "E2"), nil} {
+					var eps []*c02Layout
+					for n := 0; n < 2; n++ {
+						l := empty()
+						p := base(e) + "/root.json"
+						root := c02Doc()
+						c02Put(root, kind, c02TopName(kind, "R"), c02Ref("elem.json", "r"))
+						l.raw(p, root)
+						if n == 0 {
+							l.raw(base(e)+"/elem.json", c02Val(kind, "E1"))
+						} else if second != nil {
+							l.raw(base(e)+"/elem.json", second)
+						}
+						l.loads = [][2]string{{e, p}}
+						eps = append(eps, l)
+					}
+					emit(c02EpochCase(eps...))
+				}
+			}
+		}
+		// (D) the external document disappears / appears
+		for _, appears := range []bool{true, false} {
+			var eps []*c02Layout
+			for n := 0; n < 2; n++ {
+				l := empty()
+				p := "/r/a/root.json"
+				root := c02Doc()
+				c02Put(root, kind, c02TopName(kind, "R"), c02Ref("../b/x.json"+c02Ptr(kind, c02TopName(kind, "Pet")), "r"))
+				l.raw(p, root)
+				if (n == 1) == appears {
+					l.raw("/r/b/x.json", c02Rev(kind, true, "1"))
+				}
+				l.loads = [][2]string{{"file", p}}
+				eps = append(eps, l)
+			}
+			emit(c02EpochCase(eps...))
+		}
+	}
+}
+
 func c02ShapesRound3(emit func(hx.Case)) {
 	root := "/r/a/root.json"
 	// (a) kind clash: a text in progress as kind P met again as kind C in a child slot of the target — in the same
@@ -1531,6 +1752,17 @@ func c02Clone(v any) any {
 
 func shrinkC02(c hx.Case) []hx.Case {
 	var out []hx.Case
+	if eps := jlist(c["epochs"]); len(eps) > 0 {
+		// a changing-store history: a shorter one (the documents of an epoch are not edited)
+		if len(eps) > 1 {
+			for i := range eps {
+				x := cloneCase(c)
+				x["epochs"] = append(append([]any{}, eps[:i]...), eps[i+1:]...)
+				out = append(out, x)
+			}
+		}
+		return out
+	}
 	files := jlist(c["files"])
 	isRoot := map[string]bool{}
 	for _, ld := range c02Loads(c) {
